@@ -500,7 +500,7 @@ class XformsUnit(Unit):
             return ex
         ex.outcome = 'return'
         ex.cover('xform applied')
-        res = tx.f['items']['frame']
+        res = tx.f['kv']['frame']
         ex.oblige('C17.xforms: returns the record it was given with the new frame stored', out is tx)
         img = res.f['image']
         calls = [c for c in ex.__dict__.get('cv_calls', [])]
